@@ -69,14 +69,16 @@ struct Engine
     {
         const auto& f = Cfg::fields()[field];
         const bool is_float = std::string(f.tname) == "f32" || std::string(f.tname) == "f64";
-        const int r = static_cast<int>(rng.below(is_float ? 6 : 4));
+        const int r = static_cast<int>(rng.below(is_float ? 8 : 6));
         switch (r)
         {
             case 0: return 0;
             case 1: return 1;
             case 2: return 2;
             case 3: return 255;  // high byte: distinguishes signed / unsigned byte order
-            case 4: return CODE_NEG_ZERO;
+            case 4: return 8;    // equal to 0 / 2 for a type that compares modulo 8, different bytes
+            case 5: return 10;
+            case 6: return CODE_NEG_ZERO;
             default: return CODE_NAN;
         }
     }
